@@ -215,6 +215,8 @@ type World struct {
 	submitted  []int
 	prefillN   int
 	inEpilogue bool
+	failedItems []int
+	tamperCount int
 }
 
 type clockState struct {
